@@ -206,8 +206,9 @@ theorem Gaps.adjacent {lines : List (List Nat)} {g : Pos} (pre : List Tok5) (a b
 /-- **gaps_are_indentation_or_continuation** (the gap clause of C08).  Under the three pattern certificates of
     `all_tokens_are_source_slices` plus `EndGap` (the `End` branch of the master pattern - the backslash continuation -
     consumes only backslash, CR and LF), on every text on which the tokenizer finishes: every character of the source that
-    lies before the first token or between two consecutive tokens is a blank, a tab or a form feed (the line-leading
-    indentation that `next_statement` measures) or a backslash, a CR or a LF (a backslash continuation).  Together with
+    lies before the first token or between two consecutive tokens lies in a `Gap`: line-leading runs of blanks / tabs / form
+    feeds (the indentation `next_statement` measures) and stretches of backslash / CR / LF (a backslash continuation); see
+    `between_consecutive_tokens` for the character-by-character statement.  Together with
     the slice and order theorems: the tokens and these gaps tile the text up to the last token. -/
 theorem gaps_and_trailing (E : Env) (P : Pats) (hP : PseudoProgress P) (hF : FstrLen P) (hE : FstrEnds P)
     (hEG : EndGap P) (src : List Nat) (hfin : (tokenize E P src).err = none) :
@@ -229,27 +230,41 @@ theorem gaps_are_indentation_or_continuation (E : Env) (P : Pats) (hP : PseudoPr
   (gaps_and_trailing E P hP hF hE hEG src hfin).1
 
 /-- **after_the_last_token**: what is left of the text after the end of the last token (the ENDMARKER) - a final line of
-    indentation without a line end, if anything - holds gap characters only: with `gaps_are_indentation_or_continuation`
-    every character of the source outside all tokens is accounted for. -/
+    indentation without a line end, if anything - is a gap too: with `gaps_are_indentation_or_continuation` every character
+    of the source outside all tokens is accounted for. -/
 theorem after_the_last_token (E : Env) (P : Pats) (hP : PseudoProgress P) (hF : FstrLen P) (hE : FstrEnds P)
     (hEG : EndGap P) (src : List Nat) (hfin : (tokenize E P src).err = none) :
-    ∀ c ∈ srcText (splitLines src []) (lastStop ⟨1, 0⟩ (tokenize E P src).toks) ⟨(splitLines src []).length + 1, 0⟩,
-      c = 32 ∨ c = 9 ∨ c = 12 ∨ c = 92 ∨ c = 13 ∨ c = 10 := by
-  intro c hc
-  have := (gaps_and_trailing E P hP hF hE hEG src hfin).2 c hc
-  simp only [gapChar, Bool.or_eq_true, decide_eq_true_eq] at this
-  omega
+    ∀ i x, off (splitLines src []) (lastStop ⟨1, 0⟩ (tokenize E P src).toks) ≤ i → (splitLines src []).flatten[i]? = some x →
+      (wsChar x = true ∧ LineLeading (splitLines src []) i) ∨ contChar x = true := by
+  intro i x h1 h3
+  have hlt : i < (splitLines src []).flatten.length := (List.getElem?_eq_some_iff.mp h3).1
+  refine (gaps_and_trailing E P hP hF hE hEG src hfin).2.chars i x h1 ?_ h3
+  have : off (splitLines src []) ⟨(splitLines src []).length + 1, 0⟩ = (splitLines src []).flatten.length := by
+    simp only [off, Nat.add_sub_cancel, Nat.add_zero]
+    exact prefixLen_all _ _ (Nat.le_refl _)
+  rw [this]; exact hlt
 
-/-- the same for any two neighbours of the stream -/
+/-- **between_consecutive_tokens** (the gap clause of C08, character by character): every character of the source between
+    the end of a token and the start of the next one is either a blank, tab or form feed that is LINE-LEADING (on its
+    line, only such characters stand before it) or a backslash, CR or LF (a backslash continuation). -/
 theorem between_consecutive_tokens (E : Env) (P : Pats) (hP : PseudoProgress P) (hF : FstrLen P) (hE : FstrEnds P)
     (hEG : EndGap P) (src : List Nat) (hfin : (tokenize E P src).err = none) (pre : List Tok5) (a b : Tok5) (post : List Tok5)
     (hsplit : (tokenize E P src).toks = pre ++ a :: b :: post) :
-    ∀ c ∈ srcText (splitLines src []) a.stop b.start, c = 32 ∨ c = 9 ∨ c = 12 ∨ c = 92 ∨ c = 13 ∨ c = 10 := by
+    ∀ i x, off (splitLines src []) a.stop ≤ i → i < off (splitLines src []) b.start → (splitLines src []).flatten[i]? = some x →
+      (wsChar x = true ∧ LineLeading (splitLines src []) i) ∨ contChar x = true := by
   have h := gaps_are_indentation_or_continuation E P hP hF hE hEG src hfin
   rw [hsplit] at h
-  intro c hc
-  have := Gaps.adjacent pre a b post h c hc
-  simp only [gapChar, Bool.or_eq_true, decide_eq_true_eq] at this
-  omega
+  exact (Gaps.adjacent pre a b post h).chars
+
+/-- the same before the first token -/
+theorem before_the_first_token (E : Env) (P : Pats) (hP : PseudoProgress P) (hF : FstrLen P) (hE : FstrEnds P)
+    (hEG : EndGap P) (src : List Nat) (hfin : (tokenize E P src).err = none) (t : Tok5) (rest : List Tok5)
+    (hsplit : (tokenize E P src).toks = t :: rest) :
+    ∀ i x, i < off (splitLines src []) t.start → (splitLines src []).flatten[i]? = some x →
+      (wsChar x = true ∧ LineLeading (splitLines src []) i) ∨ contChar x = true := by
+  have h := gaps_are_indentation_or_continuation E P hP hF hE hEG src hfin
+  rw [hsplit] at h
+  intro i x h2 h3
+  exact h.1.chars i x (by simp [off, prefixLen]) h2 h3
 
 end XV.Tz
